@@ -148,8 +148,8 @@ func vCountItemWrites(f *vFile) int {
 	var covered int64 = -1
 	for i := 0; i < len(f.writes); i++ {
 		w := f.writes[i]
-		if w.off < covered {
-			continue // continuation of the item record in progress
+		if w.n == 0 || w.off < covered {
+			continue // empty write, or continuation of the item record in progress
 		}
 		if vHasStr(f.data, w.off, vMagicBeg+vMagicBeg) {
 			continue // root record
